@@ -35,6 +35,13 @@ uint8_t g_old;  /* its value before the call                               */
 size_t g_j;     /* index of an arbitrary byte of the source / of the result */
 uint8_t g_src;  /* value of the source byte at g_j before the call (needed when source may alias the destination) */
 
+/* further ghosts of the byte_buf contracts; declared here because the loop contracts that overlay/byte_buf.loops inserts
+ * into source/byte_buf.c mention them, and every unit that includes that file (C10, C15, ...) includes this header first */
+size_t g_slen;    /* length of the C string argument (position of its first NUL) */
+size_t g_sw;      /* arbitrary witness position below g_slen: no NUL there       */
+size_t g_mm;      /* Skolem output of the assumed memcmp / memchr contracts: first differing / matching position */
+bool g_pred[256]; /* the user byte predicate as a table (left nondeterministic: every predicate) */
+
 /* DFCC makes every mutable static-lifetime variable NONDET at the start of the harness (so that a proof holds in any
  * calling context).  Every harness therefore starts with GHOST_RESET() (all ghost switches off) and then switches on
  * what it needs.  Ghost switches of other contract headers register themselves through GHOST_RESET_EXTRA_n hooks. */
